@@ -52,6 +52,7 @@ func (f *floodRT) RoundTrip(r *http.Request) (*http.Response, error) {
 }
 
 func runFlood(rec *vkit.Recorder, c *floodCase) []vkit.Violation {
+	prop := rec.Prop
 	var vs []vkit.Violation
 	add := func(key, f string, a ...interface{}) {
 		vs = append(vs, vkit.Violation{Key: key, Msg: fmt.Sprintf(f, a...)})
@@ -61,7 +62,7 @@ func runFlood(rec *vkit.Recorder, c *floodCase) []vkit.Violation {
 	cm := prom.NewConfigManager()
 	cm.AddReloadCallbacks(sm.ApplyConfig, exp.ApplyConfig)
 	if err := cm.ReloadFromRaw([]byte(c20Config([]string{"ja"}))); err != nil {
-		return []vkit.Violation{{Key: "C20/harness", Msg: err.Error()}}
+		return []vkit.Violation{{Key: prop + "/harness", Msg: err.Error()}}
 	}
 	rt := &floodRT{count: map[uint64]int{}}
 	sm.GetJob("ja").Cli = &http.Client{Transport: rt}
@@ -79,7 +80,7 @@ func runFlood(rec *vkit.Recorder, c *floodCase) []vkit.Violation {
 		for r := 0; r < c.Rounds; r++ {
 			for i := 0; i < c.Targets; i++ {
 				if exp.Get(uint64(i+1)) == nil {
-					add("C20/flood/discovered-target-unknown", "target %d of %d is unknown to the explorer", i+1, c.Targets)
+					add(prop+"/flood/discovered-target-unknown", "target %d of %d is unknown to the explorer", i+1, c.Targets)
 					return
 				}
 			}
@@ -88,7 +89,7 @@ func runFlood(rec *vkit.Recorder, c *floodCase) []vkit.Violation {
 	select {
 	case <-asked:
 	case <-time.After(60 * time.Second):
-		add("C20/flood/get-blocks-for-ever", "asking for %d targets did not return within 60s (%d workers)", c.Targets, c.Workers)
+		add(prop+"/flood/get-blocks-for-ever", "asking for %d targets did not return within 60s (%d workers)", c.Targets, c.Workers)
 		return vs
 	}
 	if len(vs) > 0 {
@@ -112,7 +113,7 @@ func runFlood(rec *vkit.Recorder, c *floodCase) []vkit.Violation {
 		time.Sleep(20 * time.Millisecond)
 	}
 	if missing > 0 {
-		add("C20/flood/asked-target-never-probed", "%d of %d targets that were asked for %d time(s) have not been probed 30s later (%d workers)", missing, c.Targets, c.Rounds, c.Workers)
+		add(prop+"/flood/asked-target-never-probed", "%d of %d targets that were asked for %d time(s) have not been probed 30s later (%d workers)", missing, c.Targets, c.Rounds, c.Workers)
 		return vs
 	}
 	time.Sleep(50 * time.Millisecond)
@@ -125,7 +126,7 @@ func runFlood(rec *vkit.Recorder, c *floodCase) []vkit.Violation {
 	}
 	rt.mu.Unlock()
 	if twice > 0 {
-		add("C20/flood/probe-after-success", "%d of %d targets were probed more than once although every probe succeeds", twice, c.Targets)
+		add(prop+"/flood/probe-after-success", "%d of %d targets were probed more than once although every probe succeeds", twice, c.Targets)
 	}
 	unknown := 0
 	for i := 0; i < c.Targets; i++ {
@@ -143,7 +144,7 @@ func runFlood(rec *vkit.Recorder, c *floodCase) []vkit.Violation {
 			}
 		}
 		if unknown > 0 {
-			add("C20/flood/no-estimate", "%d of %d probed targets have no estimate", unknown, c.Targets)
+			add(prop+"/flood/no-estimate", "%d of %d probed targets have no estimate", unknown, c.Targets)
 		}
 	}
 	cls := []string{"flood"}
@@ -155,13 +156,18 @@ func runFlood(rec *vkit.Recorder, c *floodCase) []vkit.Violation {
 	return vs
 }
 
-func TestC20Flood(t *testing.T) {
-	rec := recC20()
+func TestC20Flood(t *testing.T) { floodTest(t, recC20(), "TestC20Flood") }
+
+// TestC03Flood: a target that is never probed has no estimate and is never assigned, so the same runs decide a
+// precondition of C03 ("every eligible target ends up scraped") for large discovery updates.
+func TestC03Flood(t *testing.T) { floodTest(t, vkit.Rec("C03", "exploration", ""), "TestC03Flood") }
+
+func floodTest(t *testing.T, rec *vkit.Recorder, test string) {
 	rapid.Check(t, func(t *rapid.T) {
 		c := &floodCase{Workers: rapid.IntRange(1, 8).Draw(t, "workers"), Rounds: rapid.IntRange(1, 2).Draw(t, "rounds")}
 		c.Targets = rapid.SampledFrom([]int{9999, 10000, 10001, 10009, 12500, 20001}).Draw(t, "targets")
 		if bad := rec.Filter(runFlood(rec, c)); len(bad) > 0 {
-			p := vkit.SaveViolation("C20", "TestC20Flood", c, bad, nil)
+			p := vkit.SaveViolation(rec.Prop, test, c, bad, nil)
 			t.Fatalf("%s (replay %s)", bad[0], p)
 		}
 	})
@@ -176,6 +182,21 @@ func replayFlood(t *testing.T) {
 		}
 		if bad := rec.Filter(runFlood(rec, &c)); len(bad) > 0 {
 			t.Fatalf("%s: %s", r.Note, bad[0])
+		}
+		rec.Class("replayed-case")
+	}
+}
+
+func TestReplayC03Flood(t *testing.T) {
+	rec := vkit.Rec("C03", "exploration", "")
+	for _, r := range vkit.LoadReplays("C03", "TestC03Flood") {
+		var c floodCase
+		if err := json.Unmarshal(r.Case, &c); err != nil {
+			t.Fatalf("%s: %v", r.Note, err)
+		}
+		if bad := rec.Filter(runFlood(rec, &c)); len(bad) > 0 {
+			p := vkit.SaveViolation("C03", "TestC03Flood", &c, bad, nil)
+			t.Fatalf("%s: %s (replay %s)", r.Note, bad[0], p)
 		}
 		rec.Class("replayed-case")
 	}
